@@ -206,7 +206,7 @@ def run_table(case, ctx):
     if b != c or f_xy.deriv(q) != f_x_y.deriv(q) or f_xy.deriv2(q) != f_x_y.deriv2(q):
       ctx.violation("xy_vs_x_y", "xy and x/y input differ at %r: %r vs %r" % (q, b, c), what="xy_vs_x_y")
       return
-    if abs(a - b) > 1e-12 * scale:
+    if not (abs(a - b) <= 1e-12 * scale):
       ctx.violation("api_vs_potable", "Cubic_Spline_Table_Form and [Table-Form] differ at %r: %r vs %r" % (q, a, b), what="api_vs_potable")
       return
     # derivatives are those of the interpolant
@@ -216,7 +216,7 @@ def run_table(case, ctx):
       ctx.count("derivative_points")
       s1 = max(abs(float(d1r(q))), scale / span)
       s2 = max(abs(float(d2r(q))), scale / span ** 2)
-      if abs(g1 - float(d1r(q))) > 1e-8 * s1 or abs(g2 - float(d2r(q))) > 1e-8 * s2:
+      if not (abs(g1 - float(d1r(q))) <= 1e-8 * s1 and abs(g2 - float(d2r(q))) <= 1e-8 * s2):
         ctx.violation("derivative", "%s: deriv/deriv2 at %r = %r/%r, independent spline of the same data gives %r/%r" % (nm, q, g1, g2, float(d1r(q)), float(d2r(q))), what="derivative")
         return
       # model-free: Richardson differences of the callable itself, away from knots (C2 only) and ends
@@ -224,11 +224,11 @@ def run_table(case, ctx):
       h = min(min(gaps) * 0.4, 1e-3 * max(1.0, abs(q)))
       if h > 1e-6 and hmin > 2 * h:
         r1 = richardson(f, q, h)
-        if abs(r1 - g1) > 1e-5 * s1 + 1e-9 * scale / h:
+        if not (abs(r1 - g1) <= 1e-5 * s1 + 1e-9 * scale / h):
           ctx.violation("derivative_vs_differences", "%s: deriv(%r) = %r but differences of the callable give %r" % (nm, q, g1, r1), what="derivative_vs_differences")
           return
         r2 = richardson(f.deriv, q, h)
-        if abs(r2 - g2) > 1e-5 * s2 + 1e-9 * s1 / h:
+        if not (abs(r2 - g2) <= 1e-5 * s2 + 1e-9 * s1 / h):
           ctx.violation("derivative_vs_differences", "%s: deriv2(%r) = %r but differences of .deriv give %r" % (nm, q, g2, r2), what="derivative_vs_differences")
           return
   ctx.nontrivial(len(xs) >= 4 and len(set(ys)) > 1)
@@ -309,7 +309,7 @@ def run_reader(case, ctx):
       ctx.count("reader_points")
       lo, hi = min(b, d), max(b, d)
       tol = 1e-9 * (abs(lo) + abs(hi) + 1e-300)
-      if not (lo - tol <= v <= hi + tol) or abs(v - want) > 1e-9 * max(abs(b), abs(d), 1e-300):
+      if not (lo - tol <= v <= hi + tol) or not (abs(v - want) <= 1e-9 * max(abs(b), abs(d), 1e-300)):
         ctx.violation("reader_interpolation", "TableReader(%r) = %r, linear interpolant between (%r,%r) and (%r,%r) is %r" % (q, v, a, b, c, d, want), what="reader_interpolation")
         return
   span = max(1.0, abs(xs[0]) * 1e-9, abs(xs[-1]) * 1e-9)      # (x +- 1.0 is x itself for huge x)
